@@ -49,6 +49,16 @@ var c19Funcs = []c19Fn{
 	{"auth/api/iam/openid4vp.go", "Wrapper", "getPresentationDefinitionFromRequest"},
 	{"auth/client/iam/client.go", "HTTPClient", "PresentationDefinition"},
 	{"auth/client/iam/client.go", "", "checkNoNullEntries"},
+	{"vcr/pe/util.go", "", "ParseEnvelope"},
+	{"vcr/pe/util.go", "", "parseJSONArrayEnvelope"},
+	{"vcr/pe/util.go", "", "parseJSONObjectOrStringEnvelope"},
+	{"vcr/pe/util.go", "", "tryParseJSONArray"},
+	{"network/transport/v2/conversation.go", "conversationManager", "check"},
+	{"network/transport/v2/conversation.go", "Envelope_TransactionListQuery", "checkResponse"},
+	{"network/transport/v2/conversation.go", "Envelope_TransactionRangeQuery", "checkResponse"},
+	{"network/transport/v2/conversation.go", "Envelope_State", "checkResponse"},
+	{"network/transport/v2/conversation.go", "Envelope_TransactionList", "parseTransactions"},
+	{"network/transport/v2/transactionlist_handler.go", "protocol", "handleTransactionList"},
 	{"vcr/pe/presentation_definition.go", "PresentationDefinition", "Match"},
 	{"vcr/pe/presentation_definition.go", "PresentationDefinition", "matchBasic"},
 	{"vcr/pe/presentation_definition.go", "PresentationDefinition", "matchSubmissionRequirements"},
